@@ -227,7 +227,7 @@ func cmdCheck(args []string) int {
 			if i >= 3 {
 				break
 			}
-			samples = append(samples, map[string]any{"run": spec.Name, "nd_trace": s.Trace, "outcome": s.Outcome, "covers": s.Covers, "ssa_steps": s.Steps})
+			samples = append(samples, map[string]any{"run": spec.Name, "harness": spec.Entry, "nd_trace": s.Trace, "outcome": s.Outcome, "covers": s.Covers, "observations": s.obs, "ssa_steps": s.Steps, "what": "one explored path: nd_trace is the model the solver gave for the harness inputs on this path; replayed natively it drives the real build down the same path"})
 		}
 		runSumm = append(runSumm, map[string]any{"run": spec.Name, "entry": spec.Pkg + "." + spec.Entry, "bounds": spec.Params, "paths": res.Paths, "dropped_by_assume": res.Dropped,
 			"ssa_steps": res.Steps, "max_steps_on_a_path": res.MaxSteps, "wall_s": round2(res.WallS), "queries": res.Queries, "violating_paths": res.NViol, "known_class_paths": res.NKnown,
